@@ -215,6 +215,8 @@ struct World {
     reverter: Contract,
     sproxy: Contract,
     cproxy: Contract,
+    /// an f410 address that exists as a placeholder actor (calls to it fail, but it resolves)
+    ghost: [u8; 20],
     deployed: usize,
     /// ID -> eth address of f410 actors seen alive (placeholders created by a call disappear again
     /// when the message is rolled back, but their ID stays in the trace)
@@ -316,8 +318,13 @@ fn new_evm_world() -> World {
     let reverter = deploy_helper(&v, &acct, &[0x36, 0x5f, 0x5f, 0x37, 0x36, 0x5f, 0xfd]);
     let sproxy = deploy_helper(&v, &acct, &proxy_code(true));
     let cproxy = deploy_helper(&v, &acct, &proxy_code(false));
+    let ghost: [u8; 20] = hex::decode("77aa00000000000000000000000000000000beef").unwrap().try_into().unwrap();
+    let r = v
+        .execute_message(&acct, &Address::new_delegated(EAM_ACTOR_ID, &ghost).unwrap(), &TokenAmount::from_atto(1), 0, None)
+        .unwrap();
+    assert_eq!(code(&r), 0, "ghost creation failed: {}", r.message);
     v.take_invocations();
-    World { v, acct, echo, reverter, sproxy, cproxy, deployed: 0, id_cache: RefCell::new(Default::default()), unresolved: Cell::new(false), canon: RefCell::new(vec![]) }
+    World { v, acct, echo, reverter, sproxy, cproxy, ghost, deployed: 0, id_cache: RefCell::new(Default::default()), unresolved: Cell::new(false), canon: RefCell::new(vec![]) }
 }
 
 // ------------------------------------------------------------------------------------------------
@@ -382,6 +389,9 @@ fn eth_of(w: &World, a: &Address) -> [u8; 20] {
                         return *e;
                     }
                     if *id >= 100 {
+                        if std::env::var("EVM_PROG_DEBUG").is_ok() {
+                            eprintln!("unresolved id {} (cache: {:?})", id, w.id_cache.borrow().keys().collect::<Vec<_>>());
+                        }
                         w.unresolved.set(true);
                     }
                 }
@@ -1094,6 +1104,7 @@ struct Gen<'a> {
     echo: [u8; 20],
     reverter: [u8; 20],
     acct: [u8; 20],
+    ghost: [u8; 20],
 }
 
 const SCRATCH: u64 = 0x3000;
@@ -1404,10 +1415,17 @@ impl<'a> Gen<'a> {
             0..=2 => self.echo,
             3 | 4 => self.reverter,
             5 => self.acct,
+            6 => self.ghost,
             _ => {
-                let mut x: [u8; 20] = self.r.bytes(20).try_into().unwrap();
-                x[0] = 0x77;
-                x
+                if self.r.chance(85) {
+                    self.ghost
+                } else {
+                    // a non-existent address: the VM's trace does not keep it when the call fails, and
+                    // the case is then dropped
+                    let mut x: [u8; 20] = self.r.bytes(20).try_into().unwrap();
+                    x[0] = 0x77;
+                    x
+                }
             }
         };
         let n = self.r.below(70);
@@ -1441,7 +1459,7 @@ impl<'a> Gen<'a> {
 }
 
 fn gen_grammar(r: &mut Prng, w: &World) -> Vec<u8> {
-    let mut g = Gen { r, a: Asm::default(), out: 0, echo: w.echo.eth, reverter: w.reverter.eth, acct: eth_from_id(w.acct.id().unwrap()) };
+    let mut g = Gen { r, a: Asm::default(), out: 0, echo: w.echo.eth, reverter: w.reverter.eth, acct: eth_from_id(w.acct.id().unwrap()), ghost: w.ghost };
     let n = 2 + g.r.below(9);
     for _ in 0..n {
         match g.r.below(100) {
